@@ -86,6 +86,12 @@ def cases(tier, seed):
     yield {"k": "read", "files": lists[2], "nl": 128, "dl": 128, "gap": None, "blank": 128, "gapflag": 0xFF}
     for chunk in (1, 2, 100, 254):
         yield {"k": "read", "files": [ALPHA[2], ALPHA[6]], "nl": 128, "dl": 128, "gap": None, "blank": 128, "chunk": chunk}
+    # two new targets written one after the other in one process (what --to_bin/--to_dsk together with --to_cas does): the tape
+    # holds exactly the files added to it
+    for first in ("bin", "cas", "dsk"):
+        for f1 in ([ALPHA[0]], [ALPHA[1], ALPHA[4]]):
+            for f2 in ([ALPHA[0]], [ALPHA[6], ALPHA[2]], []):
+                yield {"k": "vfpair", "first": first, "files1": f1, "files": f2}
     # what the user sees: file_util.py <tape> --list on tapes from the tool's writer ("w") and from the independent writer ("r")
     for n in (0, 1, 2):
         for tup in itertools.product(range(len(ALPHA)), repeat=n):
@@ -113,6 +119,8 @@ def cell_of(case):
     fs = case["files"]
     if case["k"] == "hist":
         return "hist|{}|{}".format(case["ops"], ",".join(lenclass(s["n"]) for s in fs))
+    if case["k"] == "vfpair":
+        return "vfpair|{}x{}>cas|{}".format(case["first"], len(case["files1"]), ",".join(lenclass(s["n"]) for s in fs) or "none")
     if case["k"] == "clist":
         return "clist.{}|{}|{}".format(case["src"], ",".join(lenclass(s["n"]) for s in fs) or "none",
                                        ",".join("t{}d{:02X}".format(s["type"], s["dtype"]) for s in fs))
@@ -170,6 +178,33 @@ def check_case(case):
             bad("history raised {}@{}".format(t, w), "listing", repr(e)[:100])
         res["state"] = "hist:{}:{}".format(case["ops"], zlib.crc32(bytes(cf.get_buffer())))
         res["transitions"] = len(case["ops"])
+        if viol:
+            res["viol"] = viol
+        return res
+    if case["k"] == "vfpair":
+        import os
+        from cocoasm.virtualfiles.virtual_file import VirtualFile, VirtualFileType
+        from cocoasm.virtualfiles.source_file import SourceFile, SourceFileType
+        img = b""
+        with common.scratch_dir(chdir=False) as d:
+            try:
+                for path, vtype, files in ((os.path.join(d, "first." + case["first"]), {"bin": VirtualFileType.BINARY, "cas": VirtualFileType.CASSETTE,
+                                                                                      "dsk": VirtualFileType.DISK}[case["first"]], case["files1"]),
+                                           (os.path.join(d, "second.cas"), VirtualFileType.CASSETTE, case["files"])):
+                    vf = VirtualFile(SourceFile(path, file_type=SourceFileType.BINARY), vtype)
+                    vf.open_virtual_file()
+                    for s in (files[:1] if vtype == VirtualFileType.BINARY else files):
+                        vf.add_coco_file(C.to_coco(s))
+                    vf.save_virtual_file(append_mode=False)
+                img = open(os.path.join(d, "second.cas"), "rb").read()
+                dd = compare_lists(case, list_image(img))
+                if dd:
+                    bad("second new target: " + dd[0], dd[1], dd[2])
+            except Exception as e:
+                t, w = common._raiser(e)
+                bad("writing two new targets raised {}@{}".format(t, w), "two images", repr(e)[:100])
+        res["state"] = "vfpair:{}".format(zlib.crc32(img))
+        res["transitions"] = 2
         if viol:
             res["viol"] = viol
         return res
@@ -237,7 +272,7 @@ def describe(tier):
     return {
         "alphabet": "file = (name, type 0-3, data type 00/FF, load, exec, length, content pattern); lengths {}; patterns {}; names {}; "
                     "addresses {}; files carrying a gap flag 00/FF/01; 14-symbol file alphabet for lists; add/list interleavings (4 patterns) on ONE "
-                    "container object over all 3-file lists of a 6-file alphabet; read side: leaders {} x {} , gaps none/0/1/128, chunk sizes; file_util --list (printed name, types, addresses, length) on every list "
+                    "container object over all 3-file lists of a 6-file alphabet; read side: leaders {} x {} , gaps none/0/1/128, chunk sizes; a second new cassette target written after a first new target in the same process; file_util --list (printed name, types, addresses, length) on every list "
                     "of <= 2 files from both writers and on every type/data type".format(
                         "0..65535" if tier == "thorough" else LEN_BOUNDARY + ["3..39", 1275, 4000, 10000], PATS, NAMES,
                         "0..65535 each" if tier == "thorough" else ADDRS, "8 lengths", "8 lengths"),
